@@ -101,7 +101,8 @@ def run(ctx):
     # ---- S: the repaired design under every fault
     h.exhaustive(ctx, "c10-k2n1", h.consts(2, 1, faults=FAULTS), h.C10_INVS, st)
     h.exhaustive(ctx, "c10-k2n2", h.consts(2, 2, faults=FAULTS), h.C10_INVS, st)
-    h.exhaustive(ctx, "c10-k2n2-tag", h.consts(2, 2, tagcallers=[1], faults=FAULTS), h.C10_INVS + ["FIFOPerTag"], st)
+    if not q:
+        h.exhaustive(ctx, "c10-k2n2-tag", h.consts(2, 2, tagcallers=[1], faults=FAULTS), h.C10_INVS + ["FIFOPerTag"], st)
     h.exhaustive(ctx, "c10-k3n1", h.consts(3, 1, faults=FAULTS), h.C10_INVS, st)
     h.exhaustive(ctx, "c10-k2n2-fewtags", h.consts(2, 2, faults=["close", "unmount"], ntags=2, cachecap=0), h.C10_INVS, st)
     if not q:
@@ -114,14 +115,13 @@ def run(ctx):
     fix = {}
     # (1) hand-off deadlock
     c_bug = h.consts(2, 1, faults=["close"], fix={"FixHandoff": False})
-    expect_cex(ctx, "c10-ascoded-handoff", c_bug, h.C10_INVS, st, "hand-off deadlock")
     gcfg = ctx.write_cfg("c10-ascoded-handoff-graph.cfg", c_bug, invariants=["TypeOK"], deadlock=False)
     r, dot = ctx.tlc_dump_graph("Clnt9P", gcfg, timeout=300)
     cex = dead_end_paths(dot, limit=4) if r.ok else []
     if os.path.exists(dot):
         os.remove(dot)
     if not cex:
-        ctx.inconclusive.append("no dead-end state in the as-coded hand-off graph")
+        ctx.inconclusive.append("TLC found no deadlock in the as-coded hand-off variant (the model lost its teeth)")
         fix["FixHandoff"] = True
     else:
         bpath = ctx.path("c10-handoff-cex.ndjson")
@@ -149,8 +149,6 @@ def run(ctx):
     # (5) the fan-out loop reads r.next after the woken caller may have recycled r (a race; it is
     #     forced deterministically when the repository has the crecv_fanned schedule point)
     c_fan = h.consts(2, 1, faults=["unmount"], fix=dict(fix, FixFanNext=False))
-    expect_cex(ctx, "c10-ascoded-fannext", h.consts(2, 1, faults=["unmount"], fix={"FixFanNext": False}), h.C10_INVS, st,
-               "fan-out loses the rest of the list")
     gcfg = ctx.write_cfg("c10-ascoded-fannext-graph.cfg", c_fan, invariants=["TypeOK"], deadlock=False)
     r, dot = ctx.tlc_dump_graph("Clnt9P", gcfg, timeout=300)
     cex = dead_end_paths(dot, limit=2, last="RFanout(TRUE") if r.ok else []
@@ -158,7 +156,7 @@ def run(ctx):
         os.remove(dot)
     fix["FixFanNext"] = True
     if not cex:
-        ctx.inconclusive.append("no RFanout(TRUE) dead end in the as-coded fan-out graph")
+        ctx.inconclusive.append("TLC found no deadlock after RFanout(TRUE) in the as-coded fan-out variant (the model lost its teeth)")
     else:
         bpath = ctx.path("c10-fannext-cex.ndjson")
         tour.write_behaviours(cex * 150, bpath)
